@@ -697,6 +697,9 @@ func runTrimSpace(c *vCase) obj {
 	return obj{"out": hx([]byte(strings.TrimSpace(string(unhex(c.S)))))}
 }
 
+// number of cases of this process that ran into their time limit
+var verifTimeouts int
+
 func verifMain() {
 	in := bufio.NewReaderSize(os.Stdin, 1<<20)
 	out := bufio.NewWriter(os.Stdout)
@@ -708,9 +711,15 @@ func verifMain() {
 			var res obj
 			if jerr := json.Unmarshal(line, &c); jerr != nil {
 				res = obj{"status": "driver-error", "error": jerr.Error()}
+			} else if verifTimeouts >= 3 && c.Mode == "app" {
+				// goroutines of timed-out cases are still spinning: do not start more work on top of them
+				res = obj{"status": "timeout", "out": "", "text": hx([]byte("not run: three cases of this batch had timed out")), "id": c.ID}
 			} else {
 				res = dispatch(&c)
 				res["id"] = c.ID
+				if res["status"] == "timeout" {
+					verifTimeouts++
+				}
 			}
 			b, _ := json.Marshal(res)
 			out.Write(b)
